@@ -462,5 +462,8 @@ PROPS["C18"]["explanation"] = PROPS["C18"]["explanation"].replace(" Not decided 
 PROPS["C18"]["rules"] = PROPS["C18"]["rules"] + [rules_idioms.rule_reserved_test_reachable]
 PROPS["C18"]["explanation"] = PROPS["C18"]["explanation"].replace(" Not decided (value-level)", " (RESERVED) the reserved-class filter is evaluated for non-empty class names. Not decided (value-level)")
 
+PROPS["C18"]["rules"] = PROPS["C18"]["rules"] + [rules_idioms.rule_out_param_not_reseated]
+PROPS["C18"]["explanation"] = PROPS["C18"]["explanation"].replace(" Not decided (value-level)", " (OUTPARAM) a pointer out-parameter is written through, never re-seated with a constant. Not decided (value-level)")
+
 NOT_APPLICABLE = {}
 
